@@ -10,6 +10,27 @@ CLAIMS = {
              technique="bounded model checking (cbmc, SAT) of the generated scanner against a generated bit-parallel reference matcher", design="4/C01"),
 }
 CLAIMS.update({
+ 'C03': dict(text="Inductive refill step (white box): from an ARBITRARY valid buffer state (capacity 1..3, any fill, any scan position, status NORMAL/NEW/EOF-pending, symbolic line-start flag and start condition) followed by up to 3 further source bytes delivered by a harness input routine in ARBITRARY read sizes, one yylex() returns the reference's first token of the logical stream, and the representation invariant (unread buffer text ++ unread source == rest of the stream, sentinels in place) holds again -- so the claim extends to read schedules and histories of any length. yy_get_next_buffer() is additionally checked as a unit against its contract (move of the partial token, growth, read request size, end-of-buffer characters, EOF/LAST_MATCH), and interactive scanners are shown not to request input beyond the first point where no longer match is possible.",
+             note="buffers > 3 bytes and > 3 further bytes per step are outside the bound; input via the generated stdio/read(2) yyread() is not part of this check; in-memory sources through yy_scan_bytes/yy_scan_buffer (E1). " + TRUSTED,
+             technique="bounded model checking (cbmc, SAT): one symbolic inductive step over buffer state and read schedule + function contract check", design="4/C03"),
+ 'C07': dict(text="(a) For REJECT / variable-trailing-context scanners the accepting list of every automaton state reached by strings up to the bound is exactly the set of matching rules in rule order (E2 on yy_acclist). (b) One yylex() step whose single shared action rejects on its first k visits (k=0..3): every visit must be the next entry of the reference's list of all (length, rule) matches ordered by length descending then rule position, with yytext/yyleng set, and the token finally returned is the first not rejected. (c) real binary: both spellings REJECT and yyreject() are detected (generated file compiles), REJECT with -Cf/-CF is refused.",
+             note="REJECT walk bounded to tokens of <= 3 bytes; non-growing buffer behaviour not covered. " + TRUSTED,
+             technique="bounded model checking (cbmc, SAT) of the REJECT walk and accepting lists against a reference match list", design="4/C07"),
+ 'C08': dict(text="One yylex() step whose action applies a solver-chosen edit -- yyless(k) for any k, yyunput(c) for any byte c, yyinput() -- followed by the assertion that yytext/yyleng are as documented, the return value of yyinput() is the next byte (its end-of-input value only at the end), yylineno is adjusted as documented, and the scanner's unread input is exactly the edited stream (the state from which C01's first-token obligations apply to the next call). yymore() is checked over two steps in the thorough tier.",
+             note="one edit per action; edits across refills and push-back overflow are outside the bound. " + TRUSTED,
+             technique="bounded model checking (cbmc, SAT) of actions calling yyless/yyunput/yyinput/yymore against a logical-stream model", design="4/C08"),
+ 'C09': dict(text="Every first-token query on %option yylineno scanners (newline reachable through literals, classes, negated classes, '.', (?s:.), definitions, {-}/{+} results, trailing context, '|' actions, case folding, the default rule) asserts yylineno == 1 + newlines of the consumed text (trailing context not counted) for non-reentrant, reentrant (per buffer, through yyget_lineno) and c99 scanners; scanners without the option must leave it at 1; yyless/yyunput/yyinput adjustments are asserted in the C08 harness.",
+             note="count after one step from the initial value; the step form extends to any number of tokens. " + TRUSTED,
+             technique="bounded model checking (cbmc, SAT) of generated scanners with a newline-counting assertion", design="4/C09"),
+ 'C11': dict(text="Two user buffers (yy_scan_buffer in place, yy_scan_bytes private copy); after one yylex() step on the first, each of switch-away-and-back, push/pop, delete of the non-current buffer, flush of the other buffer, and switch-to-current is followed by the assertion that the first buffer is current, its unread input is exactly the rest of its content, the start condition is unchanged, and (second-step variant) scanning resumes with the right token; all memory is released after deleting the user's buffers and yylex_destroy.",
+             note="two live buffers; contents NUL-free; deeper nesting outside the bound. " + TRUSTED,
+             technique="bounded model checking (cbmc, SAT) of buffer API histories against a per-buffer stream model", design="4/C11"),
+ 'C13': dict(text="The C01/C04/C11/C03 harnesses re-run with cbmc's pointer, bounds, pointer-primitive, signed-overflow, shift, division and free()/realloc() precondition checks enabled, exact-size user buffers and allocator blocks, all table modes incl. -Cf/-CF 8-bit, inputs with up to two NUL bytes; an allocation counter proves everything obtained through yyalloc/yyrealloc is released after deleting user buffers and yylex_destroy.",
+             note="bounded inputs/histories as in the individual harnesses. " + TRUSTED,
+             technique="bounded model checking (cbmc pointer/bounds/overflow instrumentation, SAT) of generated scanners with exact-size objects", design="4/C13"),
+ 'C14': dict(text="Buffer-API histories in which the k-th allocation request fails, k symbolic: the only outcomes accepted are the fatal-error hook or (reentrant) a non-zero return of yylex_init with errno ENOMEM; reaching the end of the history with a failed allocation, or using the failed block (cbmc pointer checks), is a violation.",
+             note="single failure per run; read errors/EINTR of the generated yyread() are checked only if evidence lists the readfail obligations. " + TRUSTED,
+             technique="bounded model checking (cbmc, SAT) with a symbolic failing-allocation index", design="4/C14"),
  'C02': dict(text="Every corpus rule set is generated under a matrix of table (-C, -Ce, -Cm, -Cem, -Cf, -CF, -Cfe, -CFe, -Ca*), 7/8-bit, -I/-B, %array/%pointer and API (non-reentrant C, reentrant C, c99) configurations; each generated file must compile, and the solver proves each equal to the same independent reference (E2 automaton walk, E1 yylex step), which implies pairwise equality. Unsupported combinations must be refused with the documented message (real binary).",
              note="C++ class back end not verified (cbmc cannot parse <iostream>); quick tier checks a rotating third of the matrix per rule set; serialized tables are C15. " + TRUSTED,
              technique="bounded model checking (cbmc, SAT) of scanners generated under each option set against one reference matcher", design="4/C02"),
